@@ -46,6 +46,10 @@ def run(res, args):
     xmls = [(i, bytes.fromhex(impl[i][6:].split()[0])) for i in range(len(lines)) if impl[i] and impl[i].startswith('R 0 ; ') and len(impl[i]) > 6]
     ex, _ = corr.run_lines(he, [f'EXPATN {x.hex()}' for _, x in xmls], env=b.env())
 
+    # namespace-aware second reading of the outputs of languages that have namespaces
+    ns_idx = [k for k, (i, _) in enumerate(xmls) if langs.get(int(meta[i][0].split(' ; ')[1].split(' / ')[0].split()[2]), {}).get('ns') is not None]
+    exn, _ = corr.run_lines(he, [f'EXPAT {xmls[k][1].hex()}' for k in ns_idx], env=b.env())
+    ns_read = {xmls[k][0]: r for k, r in zip(ns_idx, exn)}
     corr_diff = [i for i in range(len(lines)) if corr.canon_err(impl[i]) != corr.canon_err(model[i])]
     viol, stats = [], {'well_formed_checked': 0, 'structure_compared': 0, 'exact_compared': 0, 'precondition_excluded': 0, 'ns_checked': 0}
     for (i, xml), er in zip(xmls, ex):
@@ -63,21 +67,6 @@ def run(res, args):
         okx, doctype, xev = xmlcmp.expat_events(er)
         stats['well_formed_checked'] += 1
         if not okx:
-            # a CDATA section opened while another one is still open (through a child element)
-            depth, nested, pos = 0, False, 0
-            while True:
-                a1, b1 = xml.find(b'<![CDATA[', pos), xml.find(b']]>', pos)
-                if a1 < 0 and b1 < 0:
-                    break
-                if a1 >= 0 and (b1 < 0 or a1 < b1):
-                    nested = nested or depth > 0; depth += 1; pos = a1 + 9
-                else:
-                    depth = max(0, depth - 1); pos = b1 + 3
-            kf = next((k for k in common.load_known()['findings'] if k['property'] == 'C05' and k['match'].get('kind') == 'nested-cdata'), None)
-            if nested and kf:
-                if f"{kf['id']}: {kf['what']}" not in res.known:
-                    res.known.append(f"{kf['id']}: {kf['what']}")
-                continue
             viol.append((i, 'not-well-formed', xml)); continue
         pub = lang['pub']
         exp_dt = (bytes.fromhex(pub['dtd']) if pub['dtd'] is not None else None, bytes.fromhex(pub['xml']) if pub['xml'] else None)
@@ -85,6 +74,18 @@ def run(res, args):
             viol.append((i, f'doctype {doctype} expected {exp_dt}', xml)); continue
         if xml.count(b'<![CDATA[') != xml.count(b']]>') and b']]>' not in b''.join(e[1] for e in pev if e[0] == 'C'):
             viol.append((i, 'unbalanced CDATA', xml)); continue
+        if lang['ns'] is not None and ns_read.get(i):
+            # namespace declarations match the elements' code pages: the namespace-aware reader must find
+            # every token element in the namespace registered for its code page
+            nsmap = {r[1]: bytes.fromhex(r[0]) for r in d['tables'][str(lang['ns'])]['rows']}
+            okn, _, nev = xmlcmp.expat_events(ns_read[i])
+            got = [e[1] for e in nev if e[0] == 'S']
+            want = [(e[1], e[3]) for e in pev if e[0] == 'S']
+            if okn and len(got) == len(want):      # (an expanded embedded document adds elements: compared by C03)
+                stats['ns_checked'] += 1
+                bad = next(((g, nm, pg) for g, (nm, pg) in zip(got, want) if pg is not None and pg in nsmap and g != nsmap[pg] + b'|' + nm), None)
+                if bad:
+                    viol.append((i, f'element {bad[1]} of code page {bad[2]} is read back as {bad[0]} (expected namespace {nsmap[bad[2]]})', xml)); continue
         if lid in SPECIAL:
             continue
         exp = [(e[0], e[1], e[2] if has_attr else []) if e[0] == 'S' else e for e in pev]
@@ -105,7 +106,7 @@ def run(res, args):
     res.coverage['traces_validated_against_impl'] = len(lines) - len(corr_diff)
     res.coverage['rule'] = ('specification-generated documents of every language, corpus documents and SyncML Data/Meta/Type documents x generation tuples '
                             '(canonical/compact/indent x indent 0,2,4,255 x keep-ws); oracle: Expat (non-namespace) accepts the output, DOCTYPE matches the language, '
-                            'events read back equal the event parser\'s (exact in canonical mode). SyncML/ActiveSync: well-formedness, DOCTYPE and CDATA balance only')
+                            'events read back equal the event parser\'s (exact in canonical mode); languages with namespaces: a namespace-aware second reading finds every token element in the namespace of its code page. SyncML/ActiveSync: well-formedness, DOCTYPE, CDATA balance and namespaces only')
     res.samples = [{'request': lines[i][:120], 'xml': xml[:200].decode('latin-1')} for i, xml in rng.sample(xmls, min(4, len(xmls)))]
     for idx, rc, err in inc_i:
         if idx < len(lines):
